@@ -1177,6 +1177,8 @@ def close(a, b, ctxobj, tol=None):
         return bool(a == b)
     tol = ctxobj.tol if tol is None else tol
     a, b = float(a), float(b)
+    if a == b:          # also equal infinities
+        return True
     return abs(a - b) <= tol * (1.0 + max(abs(a), abs(b)))
 
 
